@@ -36,6 +36,10 @@ def run(ctx):
 
     ctx.each(_c19.r19c, ctx, repo)  # 0/0 in a parameter function is 0, never NaN: NaN passes every clip and rescale test and empties the compartment
     ctx.each(_c19.r19g, ctx, repo)
+    from . import c06 as _c06
+
+    ctx.each(_c06.r06m, ctx, repo)  # a transition parameter that depends on a parameter left NaN during the run is NaN itself: NaN passes every clamp
+    ctx.each(_c06.r06o, ctx, repo)
     ctx.each(c04.r04b, ctx, repo)
 
     ctx.each(c04.r04c, ctx, repo)  # the residual outflow gets the remainder only while the explicit proportions sum below 1: otherwise it would be a negative (reverse) flow
